@@ -262,7 +262,53 @@ pub const SIG_ERR_KINDS: [&str; 11] = [
     "MalformedQueryString",
     "MissingAuthenticationToken",
 ];
-pub const FOREIGN_KINDS: [&str; 9] = ["io::Error", "HarnessError", "String", "SignatureError::IO", "SignatureError::Internal", "SignatureError::IO/TimedOut", "SignatureError::IO/NotFound", "SignatureError::IO/Interrupted", "KeyTooLongError"];
+pub const FOREIGN_KINDS: [&str; 11] = [
+    "io::Error",
+    "HarnessError",
+    "String",
+    "SignatureError::IO",
+    "SignatureError::Internal",
+    "SignatureError::IO/TimedOut",
+    "SignatureError::IO/NotFound",
+    "SignatureError::IO/Interrupted",
+    "KeyTooLongError",
+    // The key store has no key for this account (suspended): it builds its response through the
+    // library's builder without a signing key and propagates the builder's error (`build()?`).
+    "lib:builder-without-key",
+    // The stored secret is longer than the key type holds: the key store propagates the error of
+    // the library's own constructor (`KSecretKey::from_str(..)?`).
+    "lib:secret-too-long",
+];
+
+/// The over-long secret the key store holds for an account under "lib:secret-too-long".
+pub fn long_secret_of(acct: &Account) -> String {
+    format!("{}+OVERLONG/stored/secret/0123456789/abcdefghijklmnopqrstuvwxyz", acct.secret)
+}
+
+/// The library-mediated failures: what the key store's own code path returns. Err = the library
+/// call failed as the key store relies on; Ok = it handed something back, which the key store
+/// then passes on like any other response.
+pub fn library_mediated_answer(kind: &str, acct: &Account, req: Option<&GetSigningKeyRequest>) -> Result<GetSigningKeyResponse, BoxError> {
+    match kind {
+        "lib:builder-without-key" => {
+            let r = GetSigningKeyResponse::builder().principal(principal_for(acct)).session_data(session_for(acct)).build();
+            r.map_err(|e| Box::new(e) as BoxError)
+        }
+        _ => {
+            let k = KSecretKey::<44>::from_str(&long_secret_of(acct)).map_err(|e| Box::new(e) as BoxError)?;
+            let (date, region, service) = match req {
+                Some(r) => (r.request_date(), r.region().to_string(), r.service().to_string()),
+                None => (NaiveDate::from_ymd_opt(2015, 8, 30).unwrap(), String::new(), String::new()),
+            };
+            Ok(GetSigningKeyResponse::builder()
+                .principal(principal_for(acct))
+                .session_data(session_for(acct))
+                .signing_key(k.to_ksigning(date, &region, &service))
+                .build()
+                .expect("response"))
+        }
+    }
+}
 
 #[derive(Debug)]
 pub struct HarnessError(pub String);
@@ -295,6 +341,11 @@ pub fn make_provider_error(a: &Answer, val: usize) -> BoxError {
             "String" => msg.into(),
             // the crate's own KeyTooLongError (a key store that propagates `KSecretKey::from_str(..)?`)
             "KeyTooLongError" => Box::new(scratchstack_aws_signature::KeyTooLongError),
+            // (readiness path: there is no response to hand over, only the error counts)
+            k if k.starts_with("lib:") => match library_mediated_answer(k, &placeholder_account(), None) {
+                Err(e) => e,
+                Ok(_) => Box::new(HarnessError(format!("{} key store expected its library call to fail", PROVIDER_MSG_PREFIX))),
+            },
             // the status is fixed by the kind of SignatureError, not by what the io::Error inside says
             "SignatureError::IO" => Box::new(SignatureError::IO(std::io::Error::new(std::io::ErrorKind::BrokenPipe, msg))),
             "SignatureError::IO/TimedOut" => Box::new(SignatureError::IO(std::io::Error::new(std::io::ErrorKind::TimedOut, msg))),
@@ -303,6 +354,16 @@ pub fn make_provider_error(a: &Answer, val: usize) -> BoxError {
             _ => Box::new(SignatureError::InternalServiceError(Box::new(HarnessError(msg)))),
         },
         _ => unreachable!(),
+    }
+}
+
+fn placeholder_account() -> Account {
+    Account {
+        access_key: "AKIDPLACEHOLDER".into(),
+        secret: "placeholder".into(),
+        rotated_secret: None,
+        token: None,
+        user: "placeholder".into(),
     }
 }
 
@@ -650,6 +711,20 @@ impl Future for ProvFuture {
             .map(|(a, s)| (a.clone(), s.to_string()));
         let level = sh.cache_level;
         match looked {
+            Err(Answer::Foreign(k)) if FOREIGN_KINDS[k].starts_with("lib:") => {
+                let acct = sh.accounts.iter().find(|x| x.access_key == req.access_key()).cloned().unwrap_or_else(placeholder_account);
+                drop(sh);
+                let r = library_mediated_answer(FOREIGN_KINDS[k], &acct, Some(&req));
+                let mut sh = this.shared.lock().unwrap();
+                sh.push(this.task, this.val, EvKind::FutPoll {
+                    result: if r.is_err() {
+                        "err"
+                    } else {
+                        "ok"
+                    },
+                });
+                Poll::Ready(r)
+            }
             Err(a) => {
                 sh.push(this.task, this.val, EvKind::FutPoll {
                     result: "err",
